@@ -82,3 +82,43 @@ def inst(n):
 
 for n_ in (1, 2, 4):
     inst(n_)
+
+
+# ------------------------------------------------------------------ compute_sigma_permutations (instances): one cycle per witness
+def WD(col, row):
+    return VOpaque("WireData::" + col, [row])
+
+
+def mk_perm(wmap):
+    return lambda: VStruct("Permutation", {"witness_map": VArr([VTuple([Sym(f"w{k}"), VArr(list(ws), "vec")]) for k, ws in enumerate(wmap)], "map")})
+
+
+def c_sigmas(n, wmap):
+    def c(it, recv, a):
+        """sigma maps every wire slot to the NEXT slot of the same witness, the last one back to the first: ONE closed cycle per
+        witness, whatever its length; slots of no witness map to themselves"""
+        cols = ["Left", "Right", "Output", "Fourth"]
+        sig = {(c_, r): WD(c_, r) for c_ in cols for r in range(n)}
+        for ws in wmap:
+            m = len(ws)
+            for k, w in enumerate(ws):
+                col, row = w.name.split("::")[1], w.args[0]
+                sig[(col, row)] = ws[(k + 1) % m]
+        return VArr([VArr([sig[(c_, r)] for r in range(n)], "vec") for c_ in cols], "array")
+    return c
+
+
+def slots(n):
+    return [WD(c_, r) for r in range(n) for c_ in ("Left", "Right", "Output", "Fourth")]
+
+
+_S5 = slots(5)
+INST = [
+    (2, [[WD("Left", 0), WD("Right", 1)], [WD("Output", 0)], [WD("Fourth", 1), WD("Left", 1), WD("Output", 1)]]),
+    (5, [_S5[:17], _S5[17:20]]),                      # a witness wired into 17 slots (more than any fixed block size below 17)
+    (5, [_S5[:16], _S5[16:20]]),
+    (9, [slots(9)[:33], slots(9)[33:36]]),            # 33 slots
+]
+for k_, (n_, wm_) in enumerate(INST):
+    u = unit(f"permutation.compute_sigma_permutations[{k_}:n={n_},fanout={max(len(w) for w in wm_)}]", PM, "Permutation::compute_sigma_permutations",
+             [("self", mk_perm(wm_)), ("n", (lambda n_=n_: n_))], c_sigmas(n_, wm_), lambda res, args, ctx: {"result": res})
